@@ -29,8 +29,8 @@ Tolerances (guide section 2, measured on the repaired tree, quick tier, seeds 0,
 worst 2.3e-7; both constants are >= 30 x these and >= 10 x below every seeded break (stale temperature, stale sample
 points, phase-less diffusivity cache: 1e-2 .. 1e+3) and below the defects found on the unchanged tree (4e-5 .. 1e+4).
 A failing comparison carries the structural facts used by the classifier: system, query, precipitate phase,
-driving-force method, tolerance class, whether the warmed object's cached two-phase sets had already lost a phase
-(cache_lost_phase), size = small (<= 5e-2) / large.
+driving-force method, tolerance class, whether the warmed object's cached two-phase sets are degenerate - a phase
+was dropped or both sets share one composition - (cache_lost_phase), size = small (<= 5e-2) / large.
 
 Domain ("stable range"), decided at run time, rejects are counted and skipped:
   * phase_not_stable: the phase the query refers to (matrix; diffusion phase) must be present with exactly one
@@ -62,7 +62,8 @@ uses max(|dg|, 1 J/mol) as its scale (1 J/mol is the library's own 'small' energ
 
 Defects found on the unchanged tree (reproducers / diffs in /verif/proposed_fixes/C09-*): binary interfacial
 composition adds gOffset to the caller's array; cache cannot be switched off; int32 key overflow for 7-8 digits;
-cached two-phase composition sets that lost a phase are never recovered (stale curvature/growth answers); the cached
+cached two-phase composition sets that lost a phase or collapsed onto one composition are never recovered (stale or
+divergent curvature/growth answers); the cached
 equilibrium omits the 1 J/mol precipitate offset of the uncached one (what the design phase took for solver noise of
 5e-4); tangent driving force of a warmed object lands on another parallel-tangent solution (Ni-Al-Cr, no small fix).
 The design's break "do not refresh state variables of cached composition sets" has no observable effect with the
@@ -621,13 +622,20 @@ def run_history(case, R):
         R.observe('q_' + k)
         # ---------------------------------------------------------------- warmed object
         def lost_now():
-            # structural fact for the classifier: the cached two-phase composition sets of the warmed object have
-            # lost a phase (the solver removes unstable phases from the cached list in place)
+            # structural fact for the classifier: the cached two-phase composition sets of the warmed object are
+            # degenerate (the solver removed a phase from the cached list in place, or both sets have one composition)
             if tc != 'b':
                 return None
             pn = q.get('prec') or W.phases[1]
             cc = (getattr(W, '_compset_cache_curvature', {}) if k in CURV_KINDS else W._compset_cache_df).get(pn)
-            return bool(cc is not None and len(cc) < 2)
+            if cc is None:
+                return False
+            if len(cc) < 2:
+                return True
+            try:   # or the precipitate set collapsed onto the matrix composition (order/disorder models)
+                return bool(np.allclose(np.array(cc[0].X), np.array(cc[1].X), rtol=0, atol=1e-6))
+            except Exception:
+                return False
         lost = lost_now()
         cw = _Call(W, q, binary, None, R, 'warm', sysn)
         if lost is not None:
